@@ -20,4 +20,12 @@ def cirqSign (norb a b : Nat) : Bool := cross norb a b norb
 /-- number of electrons of a string -/
 def nelec (norb s : Nat) : Nat := (List.range norb).foldl (fun n p => if s.testBit p then n + 1 else n) 0
 
+/-- export index under a linear binary code: `cols[m]` is the image of mode `m` as a qubit mask
+    (bit `nq-1-q` = qubit `q`); the image of a determinant is the XOR of the images of its occupied modes
+    (`_prepare_cirq_from_to_metadata` with a `BinaryCode`: encoder · occupation vector mod 2) -/
+def cirqIndexCode (norb : Nat) (cols : List Nat) (a b : Nat) : Nat :=
+  (List.range (2 * norb)).foldl (fun acc m =>
+    let occ := if m % 2 = 0 then a.testBit (m / 2) else b.testBit (m / 2)
+    if occ then acc ^^^ cols.getD m 0 else acc) 0
+
 end Model
